@@ -138,3 +138,31 @@ prop("C22",
      rule="for each rapid-generated KV history and creator mode (all 3), a directory in a drawn state is produced - empty, freshly opened and closed, written (history executed), merged (history + Merge, RAM creators), or crashed (a drawn prefix of the recorded file-mutation trace) - and then opened, on a copy, with EACH of the three index modes (the 3x3 mode pairs are enumerated per case). Oracle: sparse<->RAM on a directory holding data => Open returns an error; whenever Open returns an error the directory tree (names, sizes, bytes) is identical before and after; RAM<->RAM on KV data => Open succeeds and the observation equals the source's; a directory holding no data either fails (tree unchanged) or opens empty. Non-trivial: directory with >=2 segments or a crash image.",
      assumptions=["'holds data' = some data segment contains a non-zero byte"],
      technique="property-based testing (rapid) with enumeration of mode pairs and directory states")
+
+CONC_ASSUMPTIONS = [
+    "the Go race detector reports only races on the paths the generated schedules executed (happens-before analysis); a report whose two access stacks contain no nutsdb frame is treated as a harness error (exit 2)",
+    "invoke/return instants are taken from the process's monotonic clock",
+    "a workload that has not finished after 90 s (normal: milliseconds) with goroutines parked on the database lock is a deadlock; any other timeout is inconclusive",
+]
+
+prop("C14",
+     level="exploration", engine="E4", race=True,
+     tests=[dict(name="TestC14", quick=600, thorough=4000)],
+     rule="rapid-generated concurrent programs: 2-16 goroutines (at least one writer and one reader) x 1-6 transactions each on 1-2 databases open in the same process, all three index modes x RWMode x loading mode x sync x segment size 400/2000/8192, db.Update/db.View and manual Begin/Commit styles, a drawn yield plan (runtime.Gosched at every n-th file-mutation hook call and between the two passes of a reader). Version-stamped workload: a writer reads key ver=v, writes ver=v+1 and 1-3 drawn keys stamped v+1 (plus list/set/sorted-set appends in KeyVal mode); a reader reads ver, the keys, RangeScan, PrefixScan (and the list) twice. Oracle: committed writers carry exactly the versions 1..W, consistent with real time; every reader observes exactly the state after one version v inside its real-time window and both passes agree; the final state equals the serial replay; the binary is built with -race and every race report with a nutsdb frame is a violation; deadlock watchdog. Non-trivial: >=2 pairs of transactions on the same database overlapped in real time.",
+     assumptions=CONC_ASSUMPTIONS,
+     technique="randomized concurrent histories (rapid-generated programs and yield plans) under the race detector with an exact strict-serializability oracle")
+
+prop("C17",
+     level="exploration", engine="E4", race=True,
+     tests=[dict(name="TestC17", quick=500, thorough=4000)],
+     rule="rapid-generated concurrent programs as in C14 (2-8 worker goroutines x 1-6 version-stamped transactions, RAM index modes, segment sizes 300/400/1000 so that several segments exist) plus one goroutine that calls DB.Merge 1-4 times, each call released after a drawn amount of transaction progress; drawn yield plan. Oracle: every Merge returns nil or the 'at least 2 files' error; the strict-serializability oracle of C14 over all transactions (versions 1..W, snapshot readers inside their real-time window, both passes equal, scans and set membership agree with the version), final state = serial replay; -race build, every report with a nutsdb frame is a violation; deadlock watchdog. Non-trivial: a Merge that returned nil (it rewrote/removed segments) and overlapped at least one transaction in real time.",
+     assumptions=CONC_ASSUMPTIONS + ["known finding c15-merge-list-duplication (Merge duplicates list elements even without concurrency): the writers' list append is dropped, the set and sorted-set appends stay (counted under excluded)"],
+     technique="randomized concurrent histories with Merge under the race detector, strict-serializability oracle")
+
+prop("C18",
+     level="exploration", engine="E1+E4", race=True,
+     tests=[dict(name="TestC18", quick=800, thorough=8000, race=False),
+            dict(name="TestC18Conc", quick=400, thorough=4000)],
+     rule="(a) rapid-generated mixed histories (KV in all three index modes, lists/sets/sorted sets in KeyVal mode, FileIO/MMap x loading mode x sync x segment size 200..8192, reopen and Merge steps) with 1-3 Backup steps at drawn positions: Backup into a new directory must succeed, the copy must open with the same options, its full observation must equal the source's observation taken just before the Backup, the source's observation must not change, and the copy is re-opened and compared again at the end of the history (after the source has written, merged, reopened); (b) concurrent: 2-8 goroutines of version-stamped writers and readers (all index modes) plus 1-2 goroutines calling Backup after a drawn amount of progress; each copy is opened and judged as a reader: it must show exactly the state after one version v (keys, scans, list, set) with v inside the real-time window of the Backup call; -race build. Non-trivial: (a) a backup taken when >=2 segments exist, (b) a Backup call that overlapped a write transaction in real time; inner_enumerations counts the backups opened in (a).",
+     assumptions=CONC_ASSUMPTIONS + ["known finding c15-merge-list-duplication: sequential histories that contain list calls run without their Merge steps (counted under excluded)"],
+     technique="metamorphic (copy vs source observation) property testing + concurrent histories with a snapshot oracle")
